@@ -38,6 +38,11 @@ type XG struct {
 	Feat map[string]int
 	// strReads counts string locations read since the last ResetStrReads (LinearStr).
 	strReads int
+	// IntPool / FloatPool collect the computed (operator) sub-expressions generated so far, so that
+	// later expressions - in particular right-hand sides of actions - can repeat one verbatim: the
+	// working memory shares nodes with identical text between conditions and actions.
+	IntPool   []gast.Expr
+	FloatPool []gast.Expr
 }
 
 // ResetStrReads starts a new string expression for the LinearStr budget.
@@ -197,7 +202,11 @@ func (g *XG) Int(depth int) (gast.Expr, IntInfo) {
 		} else {
 			res.Exact = true
 		}
-		return &gast.Bin{Op: op, L: l, R: r}, res
+		node := &gast.Bin{Op: op, L: l, R: r}
+		if res.Exact && len(g.IntPool) < 32 {
+			g.IntPool = append(g.IntPool, node)
+		}
+		return node, res
 	case "method":
 		g.feat("method")
 		switch g.pick(3, "int_method") {
@@ -362,7 +371,11 @@ func (g *XG) Float(depth int) (gast.Expr, FloatInfo) {
 			l, r = r, l
 		}
 		g.feat("op:" + string(op))
-		return &gast.Bin{Op: op, L: l, R: r}, FloatInfo{Exact: true}
+		fnode := &gast.Bin{Op: op, L: l, R: r}
+		if len(g.FloatPool) < 32 {
+			g.FloatPool = append(g.FloatPool, fnode)
+		}
+		return fnode, FloatInfo{Exact: true}
 	case "div":
 		var l gast.Expr
 		if g.pick(2, "div_lhs") == 0 {
